@@ -465,7 +465,7 @@ impl Decoder {
             (Codec::List(item), _) => {
                 let decoder = Self::try_new(item)?;
                 Self::Array(
-                    Arc::new(item.field_with_name("item")),
+                    Arc::new(item.site_field_with_name("item")),
                     OffsetBufferBuilder::new(DEFAULT_CAPACITY),
                     Box::new(decoder),
                 )
@@ -505,7 +505,8 @@ impl Decoder {
                 Self::Record(arrow_fields.into(), encodings, field_defaults, projector)
             }
             (Codec::Map(child), _) => {
-                let val_field = child.field_with_name(ArrowField::MAP_VALUE_FIELD_DEFAULT_NAME);
+                let val_field =
+                    child.site_field_with_name(ArrowField::MAP_VALUE_FIELD_DEFAULT_NAME);
                 let map_field = Arc::new(ArrowField::new(
                     ArrowField::MAP_ENTRIES_FIELD_DEFAULT_NAME,
                     DataType::Struct(Fields::from(vec![
